@@ -79,27 +79,30 @@ Theorem C11_dearmor_sound (typ : Z) (input : bytes) (d : dearmored) :
     BaseX.decode base62 (body_digits body) = (da_payload d, None).
 Proof. exact (dearmor_sound typ input d). Qed.
 
-(* ---- source ties: the armor ENCODER stream (/repo/armor.go), lemmas of proofs/GoAstProofs5b.v ---- *)
+(* ---- source ties: the armor ENCODER stream (/repo/armor.go with the sticky-error fix), lemmas of proofs/GoAstProofs5d.v ---- *)
 (* The terms f_saltpack_armorEncoderStream_{Write, spaceAndOutputBuffer, Close} are generated on every run from the
    Go syntax trees of /repo/armor.go (gen/GoAstEnc.v) and run by the evaluator of model/GoLang2.v ([run2] =
    run_func2 with the fuel F as a parameter; the theorems hold for EVERY fuel above an explicit bound).  The model is
    the state machine ae_space / ae_write / ae_close of model/Streams.v (armor_stream, the one
    C13_write_oblivious_armor equates with the one-shot armor_seal these C11 theorems are about).
-   The *armorEncoderStream object is [g_armor chars footer w encv k]: s.buf = the pending characters, the footer,
+   The *armorEncoderStream object is [g_armor chars footer w encv k err]: s.buf = the pending characters, the footer,
    s.encoded = the underlying io.Writer, s.encoder = an arbitrary value encv, s.nWords = k, params = Armor62Params
-   (15-character words, 200 words per line, '.').  The writer is [g_wr w], w : wr = (w_log, w_sched): every
+   (15-character words, 200 words per line, '.'), s.err = the STICKY ERROR (err : option string, nil or an error value):
+   Write and Close return it at once when it is set, and store every error they return in it first, so that after
+   every Write or Close s.err is the error that call returned.  The writer is [g_wr w], w : wr = (w_log, w_sched): every
    Writer.Write appends its argument to the log and returns the head of the schedule as its error, so the theorems
    hold for every failure behaviour; [run_calls calls w] hands byte strings to it until one call fails: (calls made,
    error, writer afterwards).  The model has no failing writer: the theorems say that the Go code makes exactly the
    model's writes, in order, up to and including the first one that fails.  ga_space, ga_close_tail, ga_write,
-   ga_close are the Go-level specification functions of GoAstProofs5b.v.
+   ga_close are the Go-level specification functions of GoAstProofs5d.v (ga_write / ga_close take the sticky error as
+   an argument; the error they return is the one left in s.err).
    NOT EXPRESSIBLE in the evaluator (reported there): the base-X encoder behind s.encoder writes into the SAME
    *bytes.Buffer as s.buf; values of the evaluator are trees without references, so the bytes the encoder writes
    cannot appear in s.buf.  What is expressible is proved: the control flow of Write and Close for ARBITRARY
    callees (W, C, SP = the meaning given to s.encoder.Write(b), s.encoder.Close(), s.spaceAndOutputBuffer():
-   results first, then the updated receiver) — the glue theorems; spaceAndOutputBuffer and the tail of Close in full;
-   and the composition against ae_write / ae_close with the sharing stated explicitly as hypotheses (the _aliased
-   theorems). *)
+   results first, then the updated receiver) — the glue and sticky theorems; spaceAndOutputBuffer and the tail of Close
+   in full; and the composition against ae_write / ae_close with the sharing stated explicitly as hypotheses (the
+   _aliased theorems). *)
 Section C11_source.
 Import GoLang GoLang2 GoAst GoAstEnc Streams GoAstProofs5b GoAstProofs5d String.StringSyntax.
 Local Open Scope nat_scope.
@@ -108,14 +111,16 @@ Variable C : gval -> option (list gval).
 Variable SP : gval -> option (list gval).
 
 (* s.spaceAndOutputBuffer() computes exactly ga_space: the error, the pending characters, the word count and the
-   writer left in `s`, for every state and writer schedule.  Hypothesis: fuel >= 14 + len(chars)/15 (one loop turn
-   per 15-character word).  (nWords is a Go int; the evaluator's int does not wrap, Go's would after 2^63 words.) *)
-Theorem C11_source_spaceAndOutputBuffer_run (chars footer : bytes) (w : wr) (encv : gval) (k : N) (F : nat) :
+   writer left in `s`, for every state, writer schedule and value of s.err (which it leaves alone).  Hypothesis:
+   fuel >= 14 + len(chars)/15 (one loop turn per 15-character word).  (nWords is a Go int; the evaluator's int does
+   not wrap, Go's would after 2^63 words.) *)
+Theorem C11_source_spaceAndOutputBuffer_run (chars footer : bytes) (w : wr) (encv : gval) (k : N)
+        (err : option String.string) (F : nat) :
   14 + List.length chars / 15 <= F ->
-  let r := run2 (ext_ae W C SP) F f_saltpack_armorEncoderStream_spaceAndOutputBuffer [g_armor chars footer w encv k] in
+  let r := run2 (ext_ae W C SP) F f_saltpack_armorEncoderStream_spaceAndOutputBuffer [g_armor chars footer w encv k err] in
   let '(er, chars', k', w') := ga_space (S (List.length chars / 15)) chars k w in
-  fst r = ORet [g_werr er] /\ lookup "s" (snd r) = Some (g_armor chars' footer w' encv k').
-Proof. exact (go_spaceAndOutputBuffer_run W C SP chars footer w encv k F). Qed.
+  fst r = ORet [g_werr er] /\ lookup "s" (snd r) = Some (g_armor chars' footer w' encv k' err).
+Proof. exact (go_spaceAndOutputBuffer_run W C SP chars footer w encv k err F). Qed.
 
 (* ga_space against the model's ae_space: the writer calls are word, separator, word, separator ... (sp_calls), their
    concatenation is what ae_space appends to its output, the error is the first failing call's, and without a
@@ -127,41 +132,70 @@ Theorem C11_source_ga_space_model (n : nat) (chars : bytes) (k : N) (w : wr) (ac
   out = acc ++ List.concat (sp_calls n chars k) /\ er = erm /\ w' = wm /\ (er = None -> chars' = rest /\ k2 = k').
 Proof. exact (ga_space_model n chars k w acc). Qed.
 
-(* s.Write(b), for EVERY behaviour of its two callees: if s.encoder.Write(b) returns (n, e1) leaving encv', and (when
-   e1 is nil) s.spaceAndOutputBuffer() returns e2 leaving the receiver s2, then Write returns the encoder's count n
-   with the first error of the two, and the receiver is what the callees left.  Hypotheses: fuel >= 12 and the two
-   equations naming the callees' behaviour. *)
-Theorem C11_source_armor_Write_glue (chars footer b : bytes) (w : wr) (encv encv' s2 : gval) (k : N) (n : Z)
-        (e1 e2 : option String.string) (F : nat) :
+(* s.Write(b) with s.err = nil, for EVERY behaviour of its two callees: if s.encoder.Write(b) returns (n, e1) leaving
+   encv', and (when e1 is nil) s.spaceAndOutputBuffer() returns e2 leaving the receiver struct fs2, then Write returns
+   the encoder's count n with the first error of the two, AND STORES THAT ERROR IN s.err: the receiver is the object
+   with the new encoder and err = e1; or what spaceAndOutputBuffer left with its field err set to e2; or, when both
+   succeed, what spaceAndOutputBuffer left, untouched.  Hypotheses: fuel >= 12 and the two equations naming the
+   callees' behaviour. *)
+Theorem C11_source_armor_Write_glue (chars footer b : bytes) (w : wr) (encv encv' : gval)
+        (fs2 : list (String.string * gval)) (k : N) (n : Z) (e1 e2 : option String.string) (F : nat) :
   12 <= F ->
   W encv b = Some [VInt n; g_werr e1; encv'] ->
-  (e1 = None -> SP (g_armor chars footer w encv' k) = Some [g_werr e2; s2]) ->
-  let r := run2 (ext_ae W C SP) F f_saltpack_armorEncoderStream_Write [g_armor chars footer w encv k; VBytes b] in
+  (e1 = None -> SP (g_armor chars footer w encv' k None) = Some [g_werr e2; VStruct fs2]) ->
+  let r := run2 (ext_ae W C SP) F f_saltpack_armorEncoderStream_Write [g_armor chars footer w encv k None; VBytes b] in
   fst r = ORet [VInt n; g_werr (match e1 with Some x => Some x | None => e2 end)] /\
-  lookup "s" (snd r) = Some (match e1 with Some _ => g_armor chars footer w encv' k | None => s2 end).
-Proof. exact (go_armor_Write_glue W C SP chars footer b w encv encv' s2 k n e1 e2 F). Qed.
+  lookup "s" (snd r) = Some (match e1 with
+                             | Some x => g_armor chars footer w encv' k (Some x)
+                             | None => match e2 with
+                                       | Some y => VStruct (set_field fs2 "err" (VErr y []))
+                                       | None => VStruct fs2
+                                       end
+                             end).
+Proof. exact (go_armor_Write_glue W C SP chars footer b w encv encv' fs2 k n e1 e2 F). Qed.
 
-(* s.Close(), for EVERY behaviour of its two callees: the error of s.encoder.Close() is returned; else that of
-   s.spaceAndOutputBuffer(); else the tail runs on the receiver the callees left: one Write of the remaining
+(* THE STICKY ERROR, Write: with s.err = x set, Write returns (0, x), calls neither s.encoder.Write nor
+   s.spaceAndOutputBuffer (no hypothesis on W, SP) and leaves the object - the writer in particular - as it was.
+   Hypothesis: fuel >= 12. *)
+Theorem C11_source_armor_Write_sticky (chars footer b : bytes) (w : wr) (encv : gval) (k : N) (x : String.string) (F : nat) :
+  12 <= F ->
+  let r := run2 (ext_ae W C SP) F f_saltpack_armorEncoderStream_Write [g_armor chars footer w encv k (Some x); VBytes b] in
+  fst r = ORet [VInt 0; VErr x []] /\ lookup "s" (snd r) = Some (g_armor chars footer w encv k (Some x)).
+Proof. exact (go_armor_Write_sticky W C SP chars footer b w encv k x F). Qed.
+
+(* s.Close() with s.err = nil, for EVERY behaviour of its two callees: the error of s.encoder.Close() is returned; else
+   that of s.spaceAndOutputBuffer(); else the tail runs on the receiver the callees left: one Write of the remaining
    characters, then one Fprintf of padding + ". " + footer + ".\n" (ga_close_tail), whose error is returned; every
-   writer schedule.  Hypotheses: fuel >= 20 and the two equations naming the callees' behaviour. *)
+   writer schedule.  Whichever of the four places the returned error comes from, it is STORED IN s.err first; when
+   Close returns nil s.err is what spaceAndOutputBuffer left (err2).  Hypotheses: fuel >= 20 and the two equations
+   naming the callees' behaviour. *)
 Theorem C11_source_armor_Close_glue (chars footer : bytes) (w : wr) (encv encv' : gval) (k : N)
-        (e1 e2 : option String.string) (chars2 footer2 : bytes) (w2 : wr) (encv2 : gval) (k2 : N) (F : nat) :
+        (e1 e2 : option String.string) (chars2 footer2 : bytes) (w2 : wr) (encv2 : gval) (k2 : N)
+        (err2 : option String.string) (F : nat) :
   20 <= F ->
   C encv = Some [g_werr e1; encv'] ->
-  (e1 = None -> SP (g_armor chars footer w encv' k) = Some [g_werr e2; g_armor chars2 footer2 w2 encv2 k2]) ->
-  let r := run2 (ext_ae W C SP) F f_saltpack_armorEncoderStream_Close [g_armor chars footer w encv k] in
+  (e1 = None -> SP (g_armor chars footer w encv' k None) = Some [g_werr e2; g_armor chars2 footer2 w2 encv2 k2 err2]) ->
+  let r := run2 (ext_ae W C SP) F f_saltpack_armorEncoderStream_Close [g_armor chars footer w encv k None] in
   match e1 with
-  | Some x => fst r = ORet [VErr x []] /\ lookup "s" (snd r) = Some (g_armor chars footer w encv' k)
+  | Some x => fst r = ORet [VErr x []] /\ lookup "s" (snd r) = Some (g_armor chars footer w encv' k (Some x))
   | None =>
     match e2 with
-    | Some y => fst r = ORet [VErr y []] /\ lookup "s" (snd r) = Some (g_armor chars2 footer2 w2 encv2 k2)
+    | Some y => fst r = ORet [VErr y []] /\ lookup "s" (snd r) = Some (g_armor chars2 footer2 w2 encv2 k2 (Some y))
     | None =>
       let '(e, w4, k4) := ga_close_tail chars2 footer2 w2 k2 in
-      fst r = ORet [g_werr e] /\ lookup "s" (snd r) = Some (g_armor chars2 footer2 w4 encv2 k4)
+      fst r = ORet [g_werr e] /\
+      lookup "s" (snd r) = Some (g_armor chars2 footer2 w4 encv2 k4 (match e with Some z => Some z | None => err2 end))
     end
   end.
-Proof. exact (go_armor_Close_glue W C SP chars footer w encv encv' k e1 e2 chars2 footer2 w2 encv2 k2 F). Qed.
+Proof. exact (go_armor_Close_glue W C SP chars footer w encv encv' k e1 e2 chars2 footer2 w2 encv2 k2 err2 F). Qed.
+
+(* THE STICKY ERROR, Close: with s.err = x set, Close returns x, calls nothing, writes nothing (no last characters, NO
+   FOOTER) and leaves the object as it was.  Hypothesis: fuel >= 20. *)
+Theorem C11_source_armor_Close_sticky (chars footer : bytes) (w : wr) (encv : gval) (k : N) (x : String.string) (F : nat) :
+  20 <= F ->
+  let r := run2 (ext_ae W C SP) F f_saltpack_armorEncoderStream_Close [g_armor chars footer w encv k (Some x)] in
+  fst r = ORet [VErr x []] /\ lookup "s" (snd r) = Some (g_armor chars footer w encv k (Some x)).
+Proof. exact (go_armor_Close_sticky W C SP chars footer w encv k x F). Qed.
 
 (* the end of Close against the model: the two writes of ga_close_tail are the last characters, then (a separator if
    the last word is full) ". " footer ".\n" — the tail of ae_close; the error is the first failing call's and
@@ -173,18 +207,19 @@ Theorem C11_source_ga_close_tail_model (lst footer : bytes) (w : wr) (k : N) :
   e = erm /\ w' = wm /\ (e = None -> k' = (k + 1)%N).
 Proof. exact (ga_close_tail_model lst footer w k). Qed.
 
-(* ga_write = the composition encoder.Write; (the bytes the encoder wrote appear in s.buf); spaceAndOutputBuffer —
-   against the model's ae_write on the state (buffered bytes, pending characters, words): the count is len(p), the
-   encoder object keeps its invariant with the buffered bytes of the model's new state, and the bytes handed to the
-   armor stream's writer are, in order and up to the first failing call, the model's output; without a failure the
-   pending characters and word count are the model's.  Hypotheses: gobj_ok base62 128 o (the invariant NewEncoder
-   establishes, see the C10_source_ theorems), e.err = nil, and the encoder's own writer (the bytes.Buffer) is empty and never
+(* ga_write on a stream WITHOUT stored error (argument None) = the composition encoder.Write; (the bytes the encoder
+   wrote appear in s.buf); spaceAndOutputBuffer — against the model's ae_write on the state (buffered bytes, pending
+   characters, words): the count is len(p), the encoder object keeps its invariant with the buffered bytes of the
+   model's new state, and the bytes handed to the armor stream's writer are, in order and up to the first failing call,
+   the model's output; without a failure the pending characters and word count are the model's.  (The returned error
+   er is also what s.err holds afterwards.)  Hypotheses: gobj_ok base62 128 o (the invariant NewEncoder establishes,
+   see the C10_source_ theorems), e.err = nil, and the encoder's own writer (the bytes.Buffer) is empty and never
    fails. *)
 Theorem C11_source_ga_write_model (o : gobj) (chars : bytes) (k : N) (w : wr) (p : bytes) :
   gobj_ok base62 128 o -> go_err o = None -> go_w o = mkWr [] [] ->
   let st := mkAe (firstn (go_nbuf o) (go_buf o)) chars k in
   let (out, st') := ae_write st p in
-  let '(n, er, o2, chars', k', w') := ga_write o chars k w p in
+  let '(n, er, o2, chars', k', w') := ga_write o chars k w None p in
   n = List.length p /\ gobj_ok base62 128 o2 /\ go_err o2 = None /\ go_w o2 = mkWr [] [] /\
   firstn (go_nbuf o2) (go_buf o2) = ae_bx st' /\
   exists (calls : list bytes) (j : nat),
@@ -192,24 +227,36 @@ Theorem C11_source_ga_write_model (o : gobj) (chars : bytes) (k : N) (w : wr) (p
     (er = None -> chars' = ae_chars st' /\ k' = ae_words st').
 Proof. exact (ga_write_model o chars k w p). Qed.
 
-(* ga_close = encoder.Close; (shared buffer); spaceAndOutputBuffer; tail — against the model's ae_close: the bytes
-   handed to the writer are, in order and up to the first failing call, exactly ae_close st footer (last words,
-   padding, ". ", footer, ".\n"), and the error returned is that call's.  Same hypotheses. *)
+(* ga_close on a stream without stored error = encoder.Close; (shared buffer); spaceAndOutputBuffer; tail — against the
+   model's ae_close: the bytes handed to the writer are, in order and up to the first failing call, exactly
+   ae_close st footer (last words, padding, ". ", footer, ".\n"), and the error returned (and stored) is that call's.
+   ga_close also gives the object Close leaves: encoder object, pending characters, words, writer.  Same hypotheses. *)
 Theorem C11_source_ga_close_model (o : gobj) (chars : bytes) (k : N) (w : wr) (footer : bytes) :
   gobj_ok base62 128 o -> go_err o = None -> go_w o = mkWr [] [] ->
   let st := mkAe (firstn (go_nbuf o) (go_buf o)) chars k in
-  let (e, w4) := ga_close o chars k w footer in
+  let '(e, o2, chars2, k2, w4) := ga_close o chars k w None footer in
   exists (calls : list bytes) (j : nat),
     List.concat calls = ae_close st footer /\ run_calls calls w = (j, e, w4).
 Proof. exact (ga_close_model o chars k w footer). Qed.
 
-(* the translated Write against ae_write WHEN the two method calls are read as: (4th hypothesis) s.encoder.Write(p) =
-   the base-X encoder's Write (gw_write, tied by C10_source_encoder_Write) with its trailing copy performed, and
-   (5th) s.spaceAndOutputBuffer() = the translated method (C11_source_spaceAndOutputBuffer_run) run after the bytes
-   the encoder wrote have appeared in s.buf, the encoder's log drained.  These two readings state the sharing of the
-   bytes.Buffer, which the evaluator cannot express.  Other hypotheses: fuel >= 12, gobj_ok base62 128 o, e.err = nil,
-   the encoder's own writer empty and never failing.  Conclusion: Write returns (len p, er), and the receiver, the
-   encoder object and the bytes written are as in C11_source_ga_write_model. *)
+(* the sticky error on the specification functions: with a stored error x, ga_write returns count 0 and x, ga_close
+   returns x, and the state (encoder object, characters, words, WRITER) is unchanged *)
+Theorem C11_source_ga_write_sticky (o : gobj) (chars : bytes) (k : N) (w : wr) (x : String.string) (p : bytes) :
+  ga_write o chars k w (Some x) p = (0, Some x, o, chars, k, w).
+Proof. exact (ga_write_sticky o chars k w x p). Qed.
+Theorem C11_source_ga_close_sticky (o : gobj) (chars : bytes) (k : N) (w : wr) (x : String.string) (footer : bytes) :
+  ga_close o chars k w (Some x) footer = (Some x, o, chars, k, w).
+Proof. exact (ga_close_sticky o chars k w x footer). Qed.
+
+(* the translated Write (s.err = nil) against ae_write WHEN the two method calls are read as: (4th hypothesis)
+   s.encoder.Write(p) = the base-X encoder's Write (gw_write, tied by C10_source_encoder_Write) with its trailing copy
+   performed, and (5th) s.spaceAndOutputBuffer() = the translated method (C11_source_spaceAndOutputBuffer_run) run after
+   the bytes the encoder wrote have appeared in s.buf, the encoder's log drained, s.err left alone.  These two readings
+   state the sharing of the bytes.Buffer, which the evaluator cannot express.  Other hypotheses: fuel >= 12,
+   gobj_ok base62 128 o, e.err = nil, the encoder's own writer empty and never failing.  Conclusion: Write computes
+   ga_write: it returns (len p, er), the receiver afterwards is the armor object with the new characters, writer,
+   encoder object, word count AND s.err = er; the encoder object and the bytes written are as in
+   C11_source_ga_write_model. *)
 Theorem C11_source_armor_Write_aliased (o : gobj) (chars footer : bytes) (k : N) (w : wr) (p : bytes) (F : nat) :
   12 <= F -> gobj_ok base62 128 o -> go_err o = None -> go_w o = mkWr [] [] ->
   (let '(n, e1, o', p') := gw_write base62 128 o p in
@@ -217,13 +264,15 @@ Theorem C11_source_armor_Write_aliased (o : gobj) (chars footer : bytes) (k : N)
   (forall o1 : gobj,
    let chars1 := chars ++ List.concat (w_log (go_w o1)) in
    let '(er, chars', k', w') := ga_space (S (List.length chars1 / 15)) chars1 k w in
-   SP (g_armor chars footer w (g_obj base62 o1) k) = Some [g_werr er; g_armor chars' footer w' (g_obj base62 (drained o1)) k']) ->
-  let r := run2 (ext_ae W C SP) F f_saltpack_armorEncoderStream_Write [g_armor chars footer w (g_obj base62 o) k; VBytes p] in
+   SP (g_armor chars footer w (g_obj base62 o1) k None)
+   = Some [g_werr er; g_armor chars' footer w' (g_obj base62 (drained o1)) k' None]) ->
+  let r := run2 (ext_ae W C SP) F f_saltpack_armorEncoderStream_Write [g_armor chars footer w (g_obj base62 o) k None; VBytes p] in
   let st := mkAe (firstn (go_nbuf o) (go_buf o)) chars k in
   let (out, st') := ae_write st p in
   exists (er : option String.string) (o2 : gobj) (chars' : bytes) (k' : N) (w' : wr),
+    ga_write o chars k w None p = (List.length p, er, o2, chars', k', w') /\
     fst r = ORet [VInt (Z.of_nat (List.length p)); g_werr er] /\
-    lookup "s" (snd r) = Some (g_armor chars' footer w' (g_obj base62 o2) k') /\
+    lookup "s" (snd r) = Some (g_armor chars' footer w' (g_obj base62 o2) k' er) /\
     gobj_ok base62 128 o2 /\ go_err o2 = None /\ go_w o2 = mkWr [] [] /\
     firstn (go_nbuf o2) (go_buf o2) = ae_bx st' /\
     exists (calls : list bytes) (j : nat),
@@ -231,23 +280,26 @@ Theorem C11_source_armor_Write_aliased (o : gobj) (chars footer : bytes) (k : N)
       (er = None -> chars' = ae_chars st' /\ k' = ae_words st').
 Proof. exact (go_armor_Write_aliased W C SP o chars footer k w p F). Qed.
 
-(* the translated Close against ae_close under the same reading of the two method calls (s.encoder.Close() = gw_close,
-   tied by C10_source_encoder_Close): it returns the error of the first failing write, and the bytes handed to the
-   writer are, in order and up to that call, exactly ae_close st footer.  Hypotheses: fuel >= 20, gobj_ok, e.err =
-   nil, the encoder's own writer empty and never failing, the two readings. *)
+(* the translated Close (s.err = nil) against ae_close under the same reading of the two method calls
+   (s.encoder.Close() = gw_close, tied by C10_source_encoder_Close): it computes ga_close: it returns the error of the
+   first failing write, the bytes handed to the writer are, in order and up to that call, exactly ae_close st footer,
+   and the receiver afterwards is the armor object ga_close gives WITH s.err = THE RETURNED ERROR.  Hypotheses:
+   fuel >= 20, gobj_ok, e.err = nil, the encoder's own writer empty and never failing, the two readings. *)
 Theorem C11_source_armor_Close_aliased (o : gobj) (chars footer : bytes) (k : N) (w : wr) (F : nat) :
   20 <= F -> gobj_ok base62 128 o -> go_err o = None -> go_w o = mkWr [] [] ->
   (let (e1, o') := gw_close base62 o in C (g_obj base62 o) = Some [g_werr e1; g_obj base62 o']) ->
   (forall o1 : gobj,
    let chars1 := chars ++ List.concat (w_log (go_w o1)) in
    let '(er, chars', k', w') := ga_space (S (List.length chars1 / 15)) chars1 k w in
-   SP (g_armor chars footer w (g_obj base62 o1) k) = Some [g_werr er; g_armor chars' footer w' (g_obj base62 (drained o1)) k']) ->
-  let r := run2 (ext_ae W C SP) F f_saltpack_armorEncoderStream_Close [g_armor chars footer w (g_obj base62 o) k] in
+   SP (g_armor chars footer w (g_obj base62 o1) k None)
+   = Some [g_werr er; g_armor chars' footer w' (g_obj base62 (drained o1)) k' None]) ->
+  let r := run2 (ext_ae W C SP) F f_saltpack_armorEncoderStream_Close [g_armor chars footer w (g_obj base62 o) k None] in
   let st := mkAe (firstn (go_nbuf o) (go_buf o)) chars k in
-  exists (e : option String.string) (w4 : wr) (calls : list bytes) (j : nat),
+  exists (e : option String.string) (o2 : gobj) (chars2 : bytes) (k2 : N) (w4 : wr) (calls : list bytes) (j : nat),
+    ga_close o chars k w None footer = (e, o2, chars2, k2, w4) /\
     fst r = ORet [g_werr e] /\
-    List.concat calls = ae_close st footer /\ run_calls calls w = (j, e, w4) /\
-    exists (chars2 : bytes) (k2 : N) (ev : gval), lookup "s" (snd r) = Some (g_armor chars2 footer w4 ev k2).
+    lookup "s" (snd r) = Some (g_armor chars2 footer w4 (g_obj base62 o2) k2 e) /\
+    List.concat calls = ae_close st footer /\ run_calls calls w = (j, e, w4).
 Proof. exact (go_armor_Close_aliased W C SP o chars footer k w F). Qed.
 End C11_source.
 
@@ -325,6 +377,10 @@ Print Assumptions C11_source_ga_write_model.
 Print Assumptions C11_source_ga_close_model.
 Print Assumptions C11_source_armor_Write_aliased.
 Print Assumptions C11_source_armor_Close_aliased.
+Print Assumptions C11_source_armor_Write_sticky.
+Print Assumptions C11_source_armor_Close_sticky.
+Print Assumptions C11_source_ga_write_sticky.
+Print Assumptions C11_source_ga_close_sticky.
 Print Assumptions C11_frames_parse.
 Print Assumptions C11_body_shape.
 Print Assumptions C11_body_digits.
